@@ -676,4 +676,13 @@ def world_grass_unit(repo, tier, seed):
              "replay_verdict": None if ok else "violation", "replay": None if ok else {"verdict": "violates-natively", "detail": detail}}]
 
 
+def _c09_relocation():
+    """'Shifted by the configured start-up delay' for the relocated crop rotation: C09's contract on
+    set_crop_production_minus_greenhouse_area (48-month horizon, both branches), re-run under this property."""
+    from contracts import C09
+    from contracts.common import relabelled
+    return relabelled([c for c in C09.CONTRACTS if c.func == "OutdoorCrops.set_crop_production_minus_greenhouse_area" and "N48" in c.name], "C08")
+
+
+CONTRACTS = CONTRACTS + _c09_relocation()
 EXTRA = [world_grass_unit]
